@@ -234,9 +234,14 @@ class Tap(Packetizer):
             self.tap_cv.notify_all()
         return super()._build_packet(payload)
 
+    def _tap_record_in(self, cmd, m):
+        """hook for subclasses that keep more than (type, seqno): runs under tap_cv BEFORE tap_in grows, so a thread that
+        waits on the counters never sees a counter ahead of the fuller record"""
+
     def read_message(self):
         cmd, m = super().read_message()
         with self.tap_cv:
+            self._tap_record_in(cmd, m)
             self.tap_in.append((cmd, m.seqno))
             self.tap_events.append(("in", cmd, m.seqno))
             self.tap_cv.notify_all()
